@@ -13,6 +13,7 @@ any surviving subset of files, truncated meta.json / CRC sidecar); an interrupte
 `DbLaws` (re-checkpointing the same WAL is a no-op; the zero-length WAL is a no-op).
 -/
 import RqModel.Lemmas.SnapFSFields
+import RqModel.Lemmas.SnapFSRemoveOnly
 import RqModel.Gen.PlanShapes
 namespace C07
 open RqModel.SnapFS
@@ -52,6 +53,45 @@ theorem reap_crash_safe {c : Ctx D} {s0 : FS D} {dw0 : Option Nat} (w : WF c s0 
       simp only [List.mem_singleton] at hx
       subst hx
       exact Or.inl rfl
+
+/-- The remove-only reap (the newest full snapshot has no WALs and nothing after it; older
+snapshots exist): the same statement. The full snapshot is never touched; whatever point the
+removal of the older directories is interrupted at, the next start finishes it. -/
+theorem reap_crash_safe_remove_only {c : Ctx D} {s0 : FS D} {dw0 : Option Nat} (w : WF c s0 dw0)
+    (o : RmOnly c) (hcrc : c.full.crc.isSome) (hmem : c.full.name ∈ c.names)
+    (cut : ReapCut) (cuts : List RecCut) :
+    ∃ s3 snaps3,
+      check c.A (cuts.foldl (recCrash c.A) (reapCrash c.A s0 c.newName c.verify cut)) = .ok s3 ∧
+      scan s3 = .ok snaps3 ∧
+      observe c.A snaps3 = observe c.A c.snaps ∧
+      s3.plan = none ∧ s3.planTmp = false ∧
+      (∀ n d, s3.dir n = some d → d.tmp = false) := by
+  have g := w.good
+  have hreach := foldl_recCrash_reach1 g o cuts (reapCrash_reach1 w o cut)
+  have htmp : ∀ p n d, (mk c noOth p none false).dir n = some d → d.tmp = false := by
+    intro p n d hd
+    rcases mkDir_cases c p n with h | ⟨_, h2⟩
+    · have : (mk c noOth p none false).dir n = none := h noOth
+      rw [this] at hd; cases hd
+    · exact h2 noOth d hd
+  have hobs : observe c.A c.snaps = some (c.full.mt.index, c.full.mt.term, some c.d0) := by
+    rw [observe_snaps w.fullDb w.newersInc]
+    simp [Ctx.newest, o.noNewers, rmOnly_dF o]
+  rcases check_reach1 g o hreach with hc | hc
+  · obtain ⟨x, hx, hmt, hdb, hw⟩ := scan_final1 g o hcrc w.fullDb hmem w.good.namesNodup dw0
+    refine ⟨_, [x], hc, hx, ?_, rfl, rfl, htmp _⟩
+    rw [hobs]
+    simp [observe, resolveNewest, resolveRev, hmt, hdb, hw]
+  · refine ⟨_, c.snaps, hc, ?_, rfl, rfl, rfl, htmp _⟩
+    rw [← rmOnly_p0 o]
+    exact scan_p0 w
+
+/-- When there is nothing to reap (a single snapshot, an empty store, …) a reap interrupted
+anywhere has not changed anything but possibly left REAP_PLAN.tmp. -/
+theorem reap_nothing_to_do (A : DbAlg D) (s0 : FS D) (newName : Nat) (verify : Bool) (snaps : List (Snap D))
+    (hs : scan s0 = .ok snaps) (hp : mkReapPlan snaps newName verify = .ok none) (cut : ReapCut) :
+    reapCrash A s0 newName verify cut = s0 := by
+  simp [reapCrash, hs, hp]
 
 /-- Re-running the plan from ANY state a crash can leave (short of the final rename, after
 which `LastOpDone` skips execution) gives the same final state as an uninterrupted run:
